@@ -30,6 +30,15 @@ def load_rules(prop):
 
 def analyse(prop, tier, root=None):
     """Run the rules of `prop` on the tree under `root`; returns the Ctx (known not applied)."""
+    # caches keyed by id() of syntax nodes must not survive from an earlier analysis in the same process (the self-test runs
+    # many analyses per worker process; a freed node's id can be reused by a node of the next tree)
+    from .rules import common as _common
+    _common._cache.clear()
+    try:
+        from .rules import c18 as _c18
+        _c18._effects_cache.clear()
+    except Exception:
+        pass
     repo = Repo(root)
     data = DataSet(repo.root)
     ctx = report.Ctx(prop, repo, tier, data)
